@@ -266,7 +266,10 @@ func ExecTape(h Harness, prop, tier string, seed uint64, words []uint64, opt Opt
 // Minimiser: delta debugging on the tape, keeping a candidate only if the same violation class
 // persists.
 
-func Minimise(h Harness, prop, tier string, seed uint64, words []uint64, class string, opt Options, budgetMs int64) ([]uint64, RunResult, int) {
+// Minimise shrinks the tape while the same violation (class and key) persists: keeping only the
+// class would let a new violation drift into a different one of the same class - e.g. into a
+// listed known finding, which would then hide it.
+func Minimise(h Harness, prop, tier string, seed uint64, words []uint64, class, key string, opt Options, budgetMs int64) ([]uint64, RunResult, int) {
 	start := nowMs()
 	tries := 0
 	best := append([]uint64(nil), words...)
@@ -274,7 +277,7 @@ func Minimise(h Harness, prop, tier string, seed uint64, words []uint64, class s
 	same := func(w []uint64) (RunResult, bool) {
 		tries++
 		r := ExecTape(h, prop, tier, seed, w, opt)
-		return r, r.Violation != nil && r.Violation.Class == class
+		return r, r.Violation != nil && r.Violation.Class == class && r.Violation.Key == key
 	}
 	timeUp := func() bool { return nowMs()-start > budgetMs }
 	// The replay tape the run actually consumed may be shorter than the input.
@@ -353,6 +356,8 @@ type ViolationReport struct {
 	MinTries   int       `json:"min_tries"`
 	GOMAXPROCS int       `json:"gomaxprocs"`
 	ReplayedOK bool      `json:"replayed_ok"`
+	// ScheduleDependent is non-empty when the same tape does not always give the same execution
+	ScheduleDependent string `json:"schedule_dependent,omitempty"`
 }
 
 type WorkerOut struct {
@@ -551,11 +556,29 @@ func workerBody(prop string, h Harness, opt Options) {
 			// determinism: replay the recorded tape in-process
 			r2 := ExecTape(h, prop, tier, seed, r.Tape, opt)
 			if r2.Violation == nil || r2.Violation.Class != r.Violation.Class || r2.TraceHash != r.TraceHash {
-				wo.Machinery = append(wo.Machinery, fmt.Sprintf("seed %d: violation %s did not reproduce from its own tape (hash %x vs %x); %s", seed, r.Violation.Key, r.TraceHash, r2.TraceHash, firstDiff(r.Events, r2.Events)))
+				// The same tape gave another execution: something the simulator does not decide
+				// (e.g. Go's choice among several ready select cases inside the code under test)
+				// takes part. The oracle failure was observed all the same; it is reported if the
+				// same violation recurs from the tape, with the replay marked schedule-dependent and
+				// left unminimised, and is a machinery error only if it never recurs.
+				diff := firstDiff(r.Events, r2.Events)
+				again, tries := 0, 12
+				for k := 0; k < tries; k++ {
+					rk := ExecTape(h, prop, tier, seed, r.Tape, opt)
+					if rk.Violation != nil && rk.Violation.Key == r.Violation.Key {
+						again++
+					}
+				}
+				if again == 0 {
+					wo.Machinery = append(wo.Machinery, fmt.Sprintf("seed %d: violation %s did not reproduce from its own tape (hash %x vs %x); %s", seed, r.Violation.Key, r.TraceHash, r2.TraceHash, diff))
+					continue
+				}
+				vr.ScheduleDependent = fmt.Sprintf("the same tape reproduced this violation in %d of %d further in-process executions; %s", again, tries, diff)
+				wo.Violations = append(wo.Violations, vr)
 				continue
 			}
 			vr.ReplayedOK = true
-			mt, mr, tries := Minimise(h, prop, tier, seed, r.Tape, r.Violation.Class, opt, minBudget)
+			mt, mr, tries := Minimise(h, prop, tier, seed, r.Tape, r.Violation.Class, r.Violation.Key, opt, minBudget)
 			if mr.Violation != nil {
 				vr.Tape, vr.Violation, vr.Events, vr.TraceHash, vr.MinTries = mt, *mr.Violation, mr.Events, mr.TraceHash, tries
 				seenKeys[mr.Violation.Key]++
